@@ -15,7 +15,7 @@ PRE = ('From DoitV Require Import Base Dispatch Runner Parallel.\nOpen Scope N_s
        'Definition FUEL : nat := N.to_nat 4000.\n')
 
 CHECK = {'run': 'CkRun', 'utd': 'CkUpToDate', 'err': 'CkError'}
-OUTC = {'ok': 'OOk', 'fail': 'OFail', 'error': 'OError', 'saveerr': 'OSaveErr', 'interrupt': 'OInterrupt'}
+OUTC = {'ok': 'OOk', 'fail': 'OFail', 'error': 'OError', 'saveerr': 'OSaveErr', 'interrupt': 'OInterrupt', 'failv': 'OFailV'}
 
 
 # ------------------------------------------------------------------------------------------
@@ -61,7 +61,7 @@ def gen_case(rng, n=None, cyclic=False, flavour=None, profile='mixed'):
                  teardown=rng.random() < 0.3, dbignore=rng.random() < 0.06,
                  check=rng.choices(['run', 'utd', 'err'], weights=[6, 3, 1])[0],
                  argerr=rng.random() < 0.05,
-                 outcome=rng.choices(['ok', 'fail', 'error', 'saveerr'], weights=[12, 2, 1, 1])[0],
+                 outcome=rng.choices(['ok', 'fail', 'error', 'saveerr', 'failv'], weights=[12, 2, 1, 1, 1])[0],
                  calc_task=[], calc_file=[], calc_calc=[], getargs=[])
         if rng.random() < 0.3:
             t['task_dep'] = t['task_dep'] + [rng.choice(t['task_dep'])] if t['task_dep'] else t['task_dep']   # duplicate entry
@@ -296,6 +296,10 @@ def build(case):
                 raise KeyboardInterrupt('stop')
             return dict(calc_values[i]) if i in calc_values else True
 
+        def act2(t=t):
+            # second action of the task: 'failv' = the first action succeeded (values are set), this one fails
+            return t['outcome'] != 'failv'
+
         def td(i=i):
             w = threading.current_thread()
             if isinstance(w, FakeChild):
@@ -305,7 +309,7 @@ def build(case):
             kw['params'] = [{'name': 'p'}]           # CmdOption without 'default': init_options() raises
         if t['getargs']:
             kw['getargs'] = {'x': (names[t['getargs'][0]], 'v')}
-        task_list.append(Task(names[i], [act], task_dep=[names[j] for j in t['task_dep']],
+        task_list.append(Task(names[i], [act, act2], task_dep=[names[j] for j in t['task_dep']],
                               setup=[names[j] for j in t['setup']], calc_dep=[names[j] for j in t['calc_dep']],
                               file_dep=['tgt_%s' % names[j] for j in t['file_edge']], targets=['tgt_%s' % names[i]],
                               teardown=[td] if t['teardown'] else [], **kw))
